@@ -6,8 +6,10 @@
 (* the air during the call's window and what the peer's read() returned.      *)
 EXTENDS Link, Json, IOUtils
 Traces == JsonDeserialize(IOEnv.TRACE_FILE)
-VARIABLES tid, l, verdict, failed     \* failed: on-air bytes of the payload left in the TX FIFO by a failed call
-tvars == <<tid, l, verdict, failed>>
+VARIABLES tid, l, verdict, failed,    \* failed: on-air bytes of the payload left in the TX FIFO by a failed call
+          pend                        \* ACK payloads that send_only calls left in the transmitter's RX FIFO since it was last
+                                      \* known to be empty (Unknown after a call that may flush it)
+tvars == <<tid, l, verdict, failed, pend>>
 T == Traces[tid]
 C == T.cfg
 None == <<-1>>
@@ -102,8 +104,27 @@ DrainClause(e, prev) ==
   ELSE IF \E i \in 1..Len(want) : e.got[i][1] # want[i][1] THEN <<"C01.Pipe", "payload attributed to another pipe">>
   ELSE <<"ok", "">>
 
-TInit == tid \in 1..Len(Traces) /\ l = 1 /\ verdict = <<"ok", "">> /\ failed = None
+Unknown == <<<<-2>>>>
+\* the ACK payloads that reached the transmitter during a call (ground truth of the air)
+AckPls(air) == LET idx == {i \in 1..Len(air) : air[i].ack_ok /\ Len(air[i].ack) > 0} IN
+               [k \in 1..Cardinality(idx) |-> air[CHOOSE i \in idx : Cardinality({j \in idx : j < i}) = k - 1].ack]
+\* a call made with send_only leaves the RX FIFO alone: what earlier send_only calls left there is still there, what this
+\* call's acknowledgement carried is appended (the FIFO holds three); any other call may flush it
+PendAfter(e) == IF pend # Unknown /\ "send_only" \in DOMAIN e /\ e.send_only /\ e.exc = "none" /\ C.ackpl
+                THEN (IF Len(pend \o AckPls(e.air)) <= 3 THEN pend \o AckPls(e.air) ELSE Unknown)
+                ELSE Unknown
+TxReadClause(e) ==
+  IF Len(e.air) > 0 THEN <<"C02.OnlyOwnPayload", "reading the RX FIFO transmitted something">>
+  ELSE IF pend # Unknown /\ e.got # pend
+       THEN <<"C02.AckPayload", "ACK payloads that send_only calls left for read() are gone: read " \o ToString(Len(e.got)) \o " of " \o ToString(Len(pend))>>
+  ELSE <<"ok", "">>
+TInit == tid \in 1..Len(Traces) /\ l = 1 /\ verdict = <<"ok", "">> /\ failed = None /\ pend = <<>>
 Step == /\ l <= Len(T.ev) /\ l' = l + 1 /\ tid' = tid
+        /\ pend' = (LET e == T.ev[l] IN
+                    IF e.k \in {"send", "resend"} THEN PendAfter(e)
+                    ELSE IF e.k = "txread" THEN <<>>            \* read until empty
+                    ELSE IF e.k = "drain" THEN pend             \* (the peer reads its own FIFO)
+                    ELSE Unknown)
         /\ LET e == T.ev[l] IN
            CASE e.k = "send" -> /\ verdict' = SendClause(e)
                                 /\ failed' = IF e.exc = "none" /\ e.api = "send" /\ ~Truthy(e.res) THEN OnAir(C, e.buf)
@@ -118,7 +139,7 @@ Step == /\ l <= Len(T.ev) /\ l' = l + 1 /\ tid' = tid
                                  /\ failed' = None
              [] e.k = "rxturn" -> /\ verdict' = (IF Len(e.air) > 0 THEN <<"C02.OnlyOwnPayload", "a turn as receiver transmitted something">> ELSE <<"ok", "">>)
                                   /\ failed' = None        \* (leaving RX mode with ACK payloads enabled empties the TX FIFO)
-             [] e.k = "txread" -> /\ verdict' = (IF Len(e.air) > 0 THEN <<"C02.OnlyOwnPayload", "reading the RX FIFO transmitted something">> ELSE <<"ok", "">>)
+             [] e.k = "txread" -> /\ verdict' = TxReadClause(e)
                                   /\ failed' = failed       \* reading ACK payloads does not touch the failed payload
              [] e.k = "drain" -> verdict' = DrainClause(e, T.ev[l - 1]) /\ failed' = failed
 TSpec == TInit /\ [][Step]_tvars
